@@ -77,7 +77,16 @@ class Path:
                 self.calls.append((norm(c.func), c, node))
 
     def called(self, suffix: str) -> list:
-        return [c for c in self.calls if c[0] == suffix or c[0].endswith("." + suffix)]
+        """Calls of ``suffix`` evaluated on the path, one entry per call site of the source (a call
+        whose value was substituted into later expressions is still ONE evaluation)."""
+        out, seen = [], set()
+        for c in self.calls:
+            if c[0] == suffix or c[0].endswith("." + suffix):
+                key = id(getattr(c[1], "_src", c[1]))
+                if key not in seen:
+                    seen.add(key)
+                    out.append(c)
+        return out
 
     def add_cond(self, t: ast.expr, pol: bool) -> None:
         """Record a decision and the facts it implies: a false ``a or b`` makes both false, a true
